@@ -102,7 +102,7 @@ CHECKS = {
               "configurations TLC visited is built, every non-bank parameter perturbed off initialisation, and model(g.x) vs g.model(x) is "
               "measured per output block for all g in B_d plus cyclic translations by the period (tolerance 1e-2, 2-of-3 confirmation)."),
         design_ref="DESIGN.md 4 C07",
-        note="The equation half is sampling in continuous variables with a tolerance (correct models measure <= 1e-3 on well-conditioned extents); extents chosen so that odd filters do not degenerate.",
+        note="The equation half is sampling in continuous variables with a tolerance (correct models measure <= 1e-3 on well-conditioned extents); extents chosen so that odd filters do not degenerate. Layer instances (first 10 per model) are bound to their well-typed EquivCalculus graphs at the perturbed parameters; an unbound instance gets a layer-level equation test (1e-4 / 2e-3), reported as a violation only if it fails twice.",
     ),
     "C08": dict(
         engine="tlc+replay",
@@ -131,7 +131,7 @@ CHECKS = {
               "TrainStep (bank before/after compared leaf by leaf: identical or one common positive factor) / Return. The returned model, whose "
               "parameters must have moved, is then re-checked for model(g.x)=g.model(x) for every g (exploration, tolerance 1e-2)."),
         design_ref="DESIGN.md 4 C09",
-        note="Trusted: TLC/SANY/Json. Histories are short (<=3 epochs) and few (3 quick / 8 thorough); the equivariance equation after training is sampled with a tolerance.",
+        note="Trusted: TLC/SANY/Json. Histories are short (<=3 epochs) and few (3 quick / 8 thorough); the equivariance equation after training is sampled with a tolerance; every ConvContract/GroupNorm/VN instance of the returned model is additionally bound to its well-typed EquivCalculus graph at the trained parameters (an instance that is not gets a layer-level equation test at 1e-4).",
     ),
     "C10": dict(
         engine="tlc+replay",
@@ -220,7 +220,7 @@ CHECKS = {
               "ml.autoregressive_step after every step (exact, storage order included) and ml.autoregressive_map at the end; the "
               "model is an integer map with distinct weights per past slot whose Python twin is itself checked against the spec."),
         design_ref="DESIGN.md 4 C16",
-        note="Trusted: TLC/SANY/Json; model twin (checked at each step against TLC's predictions). n<=3/4 steps, past<=3, 5 signatures.",
+        note="Trusted: TLC/SANY/Json; model twin (checked at each step against TLC's predictions). n<=3/4 steps, past<=3, 8 signatures incl. three shape twins (equal block shapes, different dynamic/constant split); plus a one-process history pass (all short rollouts in sequence, forwards and backwards): a rollout must not depend on earlier ones.",
     ),
     "C17": dict(
         engine="tlc+trace",
@@ -264,7 +264,7 @@ CHECKS = {
               "identity after every call; binding B validates recorded traces of real ml.train runs (scripted losses) "
               "against TrainLoop.tla, naming the violated guard."),
         design_ref="DESIGN.md 4 C19",
-        note="Trusted: TLC/SANY/Json; the scripted-loss model (SGD lr=1 step counter). Histories bounded (length<=5/7, patience<=2/3).",
+        note="Trusted: TLC/SANY/Json; the scripted-loss model (SGD lr=1 step counter). Histories bounded (length<=5/7, patience<=2/3); EpochStop counts 0..4 (0: stopped by the pre-training call, the input model handed back) and 11.",
     ),
     "C20": dict(
         engine="tlc+trace",
